@@ -180,6 +180,7 @@ func runC04(ctx *core.Ctx) {
 	ctx.Cases("c04", n, 2*workers(), func(i int, r *rand.Rand) {
 		execC04(ctx, genC04(core.CaseRef{Stream: "c04", Index: i}, r))
 	})
+	c04DistinctStream(ctx)
 }
 
 func (c *c04Case) keyOfRow(row Row) string {
@@ -270,6 +271,7 @@ func execC04(ctx *core.Ctx, c *c04Case) {
 		return
 	}
 	seenID := map[int]int{}
+	resultOf := map[int]string{} // witness id -> the result row that reports it
 	batchMulti := false
 	for _, d := range res.Dels {
 		tuplesInBatch := map[string]bool{}
@@ -310,6 +312,7 @@ func execC04(ctx *core.Ctx, c *c04Case) {
 				}
 				batchIDs[k] = append(batchIDs[k], id)
 				seenID[id]++
+				resultOf[id] = fmt.Sprintf("delivery %d: %s", d.Index, core.J(out))
 			}
 			if c.Window == "counting" || c.Window == "global" {
 				if len(ids) != c.N {
@@ -347,6 +350,23 @@ func execC04(ctx *core.Ctx, c *c04Case) {
 			}
 		}
 	default:
+		if c.Window == "session" && res.Quiescent {
+			// equal values are never split: two rows of one tuple that follow each other within less than the
+			// session timeout (1 s; the rows arrive in timestamp order) belong to one session of that tuple
+			last := map[string]Row{}
+			for _, row := range c.Rows {
+				k := c.keyOfRow(row)
+				if p, ok := last[k]; ok && row["ts"].(int64)-p["ts"].(int64) < 1000 {
+					a, b := p["id"].(int), row["id"].(int)
+					if seenID[a] == 1 && seenID[b] == 1 && resultOf[a] != resultOf[b] {
+						viol("groupby.equal_values_split", fmt.Sprintf("rows id=%d and id=%d have the same key tuple %q and are %d ms apart (session timeout 1 s) but are reported in two different results:\n  %s\n  %s\n  rows: %s %s",
+							a, b, k, row["ts"].(int64)-p["ts"].(int64), resultOf[a], resultOf[b], core.J(p), core.J(row)))
+						return
+					}
+				}
+				last[k] = row
+			}
+		}
 		for _, row := range c.Rows {
 			id := row["id"].(int)
 			if seenID[id] != 1 {
